@@ -136,7 +136,7 @@ func cmdCheck(args []string) {
 		os.Exit(2)
 	}
 	known := loadKnownFindings()
-	quickS, fullS, all := 3, 10, false
+	quickS, fullS, all := 4, 15, false
 	if tier == "thorough" {
 		quickS, fullS, all = 10, 60, true
 	}
